@@ -92,6 +92,11 @@ async def call_op(api, kind, a):
         if fn is not None: kw["fan_level"] = ThermostatFanLevel[fn]
         if sw is not None: kw["swing"] = ThermostatSwing.ON if sw else ThermostatSwing.OFF
         if upd: kw["update_state"] = True
+        # the same request in other spellings: every parameter named with its documented default (None / 0 / False), or all positional
+        full = [kw.get("state"), kw.get("mode"), kw.get("target_temp", 0), kw.get("fan_level"), kw.get("swing"), bool(upd)]
+        variant = (len(kw) + len(irset.get("IRWaveList", ()))) % 3
+        if variant == 1: return await api.control_breeze_device(remote, state=full[0], mode=full[1], target_temp=full[2], fan_level=full[3], swing=full[4], update_state=full[5])
+        if variant == 2: return await api.control_breeze_device(remote, *full)
         return await api.control_breeze_device(remote, **kw)
     raise AssertionError(kind)
 
@@ -605,6 +610,7 @@ async def feed_bridge(n_ports, events, raising=(), show=None, sentinel=None, ser
             await bridge.stop(); tx.close(); await asyncio.sleep(0)
             loop.set_exception_handler(old)
         nwarn = len([x for x in w if "unknown" in str(x.message)])
+        feed_bridge.other_warnings = [str(x.message)[:120] for x in w if "unknown" not in str(x.message)]      # any other warning raised while the bridge ran
     return log, len(handler), nwarn, complete
 
 
